@@ -307,20 +307,25 @@ func sameMultiset(a, b []string) bool {
 
 type badLine struct {
 	Name, Class, Text string
+	// Parses: a well-formed multiaddress that names no peer (LoadPeerstore
+	// returns it; importing it is refused and must be skipped like the rest)
+	Parses bool
 }
 
 func badLines() []badLine {
 	valid := "/ip4/127.0.0.1/tcp/9096/p2p/" + peer.Encode(test.PeerID4)
 	return []badLine{
-		{"word", "nonslash", "garbage"},
-		{"comment", "nonslash", "#" + valid},
-		{"leading-space", "nonslash", " " + valid},
-		{"empty", "empty", ""},
-		{"cr-only", "empty", "\r"},
-		{"slash-garbage", "slash-unparsable", "/garbage"},
-		{"truncated", "slash-unparsable", "/ip4/1.2.3.4/tcp"},
-		{"bad-ip", "slash-unparsable", "/ip4/999.0.0.1/tcp/9096/p2p/" + peer.Encode(test.PeerID4)},
-		{"bad-peerid", "slash-unparsable", "/ip4/1.2.3.4/tcp/9096/p2p/notapeerid"},
+		{"word", "nonslash", "garbage", false},
+		{"comment", "nonslash", "#" + valid, false},
+		{"leading-space", "nonslash", " " + valid, false},
+		{"empty", "empty", "", false},
+		{"cr-only", "empty", "\r", false},
+		{"slash-garbage", "slash-unparsable", "/garbage", false},
+		{"truncated", "slash-unparsable", "/ip4/1.2.3.4/tcp", false},
+		{"bad-ip", "slash-unparsable", "/ip4/999.0.0.1/tcp/9096/p2p/" + peer.Encode(test.PeerID4), false},
+		{"bad-peerid", "slash-unparsable", "/ip4/1.2.3.4/tcp/9096/p2p/notapeerid", false},
+		{"address-without-peer", "multiaddress-naming-no-peer", "/ip4/10.0.0.3/tcp/9096", true},
+		{"dnsaddr-without-peer", "multiaddress-naming-no-peer", "/dnsaddr/bootstrap.cluster.example.org", true},
 	}
 }
 
@@ -330,8 +335,8 @@ func TestPeerstoreMalformedLines(t *testing.T) {
 	bad := badLines()
 	for _, b := range bad {
 		// sanity of the harness alphabet against the multiaddr library itself
-		if _, err := ma.NewMultiaddr(strings.TrimSuffix(b.Text, "\r")); err == nil {
-			t.Fatalf("harness bug: %q parses as a multiaddress", b.Text)
+		if _, err := ma.NewMultiaddr(strings.TrimSuffix(b.Text, "\r")); (err == nil) != b.Parses {
+			t.Fatalf("harness bug: %q parses as a multiaddress: %v", b.Text, err == nil)
 		}
 	}
 	p := func(i int, a string) string { return a + "/p2p/" + peer.Encode(psPeers[i]) }
@@ -368,14 +373,18 @@ func TestPeerstoreMalformedLines(t *testing.T) {
 	}
 	runCase := func(fi int, valid []string, inserted []ins, finalNL bool) {
 		// build the file
-		var lines []string
+		var lines, wantLoad []string
 		k := 0
 		for pos := 0; pos <= len(valid); pos++ {
 			for ; k < len(inserted) && inserted[k].pos == pos; k++ {
 				lines = append(lines, inserted[k].b.Text)
+				if inserted[k].b.Parses {
+					wantLoad = append(wantLoad, inserted[k].b.Text)
+				}
 			}
 			if pos < len(valid) {
 				lines = append(lines, valid[pos])
+				wantLoad = append(wantLoad, valid[pos])
 			}
 		}
 		content := strings.Join(lines, "\n")
@@ -440,7 +449,7 @@ func TestPeerstoreMalformedLines(t *testing.T) {
 				held = false
 				report("load", "nil-entry", map[string]interface{}{"returned": len(loaded), "nil_entries": nils, "expected": "unparsable lines are skipped"})
 			}
-			if strings.Join(got, "\n") != strings.Join(valid, "\n") {
+			if strings.Join(got, "\n") != strings.Join(wantLoad, "\n") {
 				held = false
 				report("load", "valid-lines-not-returned-in-order", map[string]interface{}{"loaded": got})
 			}
